@@ -180,6 +180,12 @@ func (e *Engine) pushFrame(st *State, fn *ssa.Function, args []Value, env []Valu
 }
 
 func (e *Engine) unsupported_(st *State, what string) {
+	if os.Getenv("SYMGO_UNSUP_STACK") != "" {
+		fmt.Println("UNSUPPORTED", what)
+		for _, l := range st.stack() {
+			fmt.Println("     at", l)
+		}
+	}
 	st.status = Unsupported
 	st.note = what
 }
